@@ -232,6 +232,11 @@ def vmdk_descriptor(p):
         lines.append('createType=%s' % ctype)
         ok = False
     else:
+        if p.get('ctype_first') is not None:
+            # an earlier createType header with another value: the descriptor's type is not (only) an allowed one
+            lines.append('createType="%s"' % p['ctype_first'])
+            if p['ctype_first'].lower() not in ('monolithicsparse', 'streamoptimized') or len(p['ctype_first']) >= 64:
+                ok = False
         lines.append('createType="%s"' % ctype)
         if ctype.lower() not in ('monolithicsparse', 'streamoptimized') or len(ctype) >= 64:
             ok = False
